@@ -5,7 +5,7 @@ import ast
 
 import z3
 
-from .pyvals import (NONE, Exc, IntSeq, NoneVal, PyCache, PyCallable, PyConst, PyGen, PyKey, PyList, PyMap, PyObj, PyStrSet,
+from .pyvals import (NONE, Exc, IntSeq, NoneVal, PyCache, PyCallable, PyConst, PyGen, PyKey, PyList, PyMap, PyObj, PyOpt, PyStrDict, PyStrSet,
                      PyTuple, StrSeq, Tok, TokSeq, Val, ValSeq, fresh, is_bool, is_int, is_seq, is_str, is_tok, is_val, is_z3,
                      tok_fields)
 from .pyvc import (Tr, Unsupported, dedent, eq, is_keyword, is_soft_keyword, join_lines, lex_lt, lift, str_isspace, str_lower,
@@ -300,7 +300,7 @@ class ExprMixin:
             r = eq(a, b)
             return r if isinstance(op, ast.Eq) else z3.Not(r)
         if isinstance(op, (ast.Is, ast.IsNot)):
-            if a is NONE or b is NONE or is_val(a) or is_val(b):
+            if a is NONE or b is NONE or is_val(a) or is_val(b) or isinstance(a, PyOpt) or isinstance(b, PyOpt):
                 r = eq(a, b)
             elif is_bool(a) and is_bool(b):
                 r = a == b
@@ -417,7 +417,7 @@ class ExprMixin:
                 return f[attr]
             if attr in ("is_exact_type", "loc", "loc_start", "loc_end", "is_next_to", "_replace"):
                 return PyCallable("tokmethod", attr, bound=v)
-        if is_str(v) or is_seq(v) or isinstance(v, (PyList, PyMap, PyCache, PyDictLit)):
+        if is_str(v) or is_seq(v) or isinstance(v, (PyList, PyMap, PyCache, PyDictLit, PyStrDict)):
             return PyCallable("valmethod", attr, bound=v)
         if isinstance(v, PyConst):
             g = self.const_attr(v, attr)
